@@ -11,6 +11,7 @@ import (
 	"fmt"
 	"os"
 
+	"github.com/coredhcp/coredhcp/config"
 	"github.com/coredhcp/coredhcp/handler"
 	"github.com/coredhcp/coredhcp/logger"
 	"github.com/coredhcp/coredhcp/plugins"
@@ -66,6 +67,8 @@ type subResult struct {
 	SetupPanic string   `json:"setup_panic"`
 	NilHandler bool     `json:"nil_handler"`
 	Runs       []subOut `json:"runs"`
+	// the configuration setup rejected, handed to plugins.LoadPlugins (what the server does at start-up): accepted there?
+	LoadAccepted bool `json:"load_accepted"`
 }
 
 func init() {
@@ -119,6 +122,21 @@ func plugsubMain() {
 	}
 	if err != nil {
 		res.SetupErr = err.Error()
+		func() {
+			defer func() { recover() }()
+			if plugins.RegisterPlugin(p) != nil {
+				return
+			}
+			conf := &config.Config{}
+			pc := []config.PluginConfig{{Name: p.Name, Args: spec.Args}}
+			if spec.Proto == 4 {
+				conf.Server4 = &config.ServerConfig{Plugins: pc}
+			} else {
+				conf.Server6 = &config.ServerConfig{Plugins: pc}
+			}
+			_, _, lerr := plugins.LoadPlugins(conf)
+			res.LoadAccepted = lerr == nil
+		}()
 		return
 	}
 	if (spec.Proto == 4 && h4 == nil) || (spec.Proto == 6 && h6 == nil) {
